@@ -12,6 +12,7 @@ import (
 // a second run changes nothing.
 func H_C10_rewrite() {
 	vxrt.EnvFixed("NO_COLOR", "1")
+	calibrateExamineSnaps()
 	dir := vxrt.Dir()
 	path := dir + "/f.snap"
 	k := vxrt.Len("frames", 1, vxrt.Param("frames", 3))
@@ -101,7 +102,7 @@ func H_C10_rewrite() {
 	total := 0
 	for i := 0; i < k; i++ {
 		survives := !(update && stale[i])
-		got, _, err := getPrevSnapshot("["+ids[i]+"]", path)
+		got, _, err := refPrev("["+ids[i]+"]", path)
 		if survives {
 			total += len(frame(ids[i], bodies[i]))
 			vxrt.Assert(err == nil, "C10:survivor-present")
@@ -181,6 +182,7 @@ func hasHeaderLikeLine(body string) bool {
 // the structured entry must replay exactly what it held.
 func H_C10_bodies() {
 	vxrt.EnvFixed("NO_COLOR", "1")
+	calibrateExamineSnaps()
 	dir := vxrt.Dir()
 	path := dir + "/f.snap"
 	var body string
@@ -220,7 +222,7 @@ func H_C10_bodies() {
 	stamp := vxrt.FSStamp()
 	_, err := examineSnaps(reg, []string{path}, "", 1, update, sortOpt)
 	vxrt.Assert(err == nil && vxrt.FSStamp() != stamp, "C10:file-rewritten")
-	got, _, err := getPrevSnapshot("[TestA - 1]", path)
+	got, _, err := refPrev("[TestA - 1]", path)
 	vxrt.Assert(err == nil, "C10:survivor-present")
 	vxrt.Assert(vxrt.Eq(got, body), "C10:survivor-value-unchanged")
 	want := mine
@@ -235,6 +237,7 @@ func H_C10_bodies() {
 // in numeric order of the ordinals and is written only if it was not.
 func H_C10_natural() {
 	vxrt.EnvFixed("NO_COLOR", "1")
+	calibrateExamineSnaps()
 	dir := vxrt.Dir()
 	path := dir + "/f.snap"
 	d1 := vxrt.Text("one-digit", 1)
@@ -262,6 +265,7 @@ func H_C10_natural() {
 // idempotent and must not rewrite a file it already considers sorted.
 func H_C10_ties() {
 	vxrt.EnvFixed("NO_COLOR", "1")
+	calibrateExamineSnaps()
 	dir := vxrt.Dir()
 	path := dir + "/f.snap"
 	d := vxrt.Text("digit", 1)
@@ -277,8 +281,8 @@ func H_C10_ties() {
 	_, err := examineSnaps(reg, []string{path}, "", 1, false, true)
 	vxrt.Assert(err == nil, "C10:examine-succeeds")
 	after := readFile(path)
-	ga, _, ea := getPrevSnapshot("[TestPad/0"+d+" - 1]", path)
-	gb, _, eb := getPrevSnapshot("[TestPad/"+d+" - 1]", path)
+	ga, _, ea := refPrev("[TestPad/0"+d+" - 1]", path)
+	gb, _, eb := refPrev("[TestPad/"+d+" - 1]", path)
 	vxrt.Assert(ea == nil && eb == nil && ga == "x" && gb == "y", "C10:survivor-value-unchanged")
 	stamp := vxrt.FSStamp()
 	_, err = examineSnaps(reg, []string{path}, "", 1, false, true)
@@ -290,6 +294,7 @@ func H_C10_ties() {
 // benchmark and fuzz prefixes) survive a rewrite - pruning or sorting - with their values.
 func H_C10_names() {
 	vxrt.EnvFixed("NO_COLOR", "1")
+	calibrateExamineSnaps()
 	dir := vxrt.Dir()
 	path := dir + "/f.snap"
 	names := []string{"TestA/[x]", "TestA/]", "TestA/x_-_1", "TestA/#01", "TestÄ/ü", "TestA/a-b", "BenchmarkB/[8]", "FuzzF/seed#1", "TestA/[TestZ_-_1]"}
@@ -314,7 +319,7 @@ func H_C10_names() {
 	}
 	_, err := examineSnaps(reg, []string{path}, "", 1, update, sortOpt)
 	vxrt.Assert(err == nil, "C10:examine-succeeds")
-	got, _, err := getPrevSnapshot("["+name+" - 1]", path)
+	got, _, err := refPrev("["+name+" - 1]", path)
 	vxrt.Assert(err == nil, "C10:survivor-present")
 	vxrt.Assert(got == "mine", "C10:survivor-value-unchanged")
 }
@@ -323,6 +328,7 @@ func H_C10_names() {
 // nor sorting is not written, whatever an earlier or later file of the same run needed.
 func H_C10_secondfile() {
 	vxrt.EnvFixed("NO_COLOR", "1")
+	calibrateExamineSnaps()
 	dir := vxrt.Dir()
 	pa, pb, pc := dir+"/a.snap", dir+"/b.snap", dir+"/c.snap"
 	clean := frame("TestB - 1", "x") + frame("TestB - 2", "y")
